@@ -1,6 +1,8 @@
 package main
 
 import (
+	"bytes"
+	"compress/flate"
 	"context"
 	"errors"
 	"fmt"
@@ -17,7 +19,7 @@ import (
 // so that sync.Pool hands a returned object straight to the next Get.  Every message payload is tagged with its
 // connection, so a byte that crossed connections is visible.  The pool hooks record which object was taken / returned /
 // read through, per connection.
-//   hist=<op>|<op>...   op = open:<c>:<takeover 0|1> | msg:<c>:<n> | read:<c>:<k> | readall:<c> | again:<c> | closemid:<c>:<n> | closenow:<c> | plain:<c>:<n>
+//   hist=<op>|<op>...   op = open:<c>:<takeover 0|1>[:<role s|c>] | probe:<c>:<kind 0|1> | wfail:<c>:<n> | msg:<c>:<n> | read:<c>:<k> | readall:<c> | again:<c> | closemid:<c>:<n> | closenow:<c> | plain:<c>:<n>
 // Observation: per read op  <c>:<len>:<own 0|1>:<status>   ptrace=<c>:<ev>:<obj>,...
 
 func init() {
@@ -40,9 +42,20 @@ func genPools(r *Rng, tier string, stat func(string)) []string {
 		for s := 0; s < steps; s++ {
 			c := r.Intn(nc)
 			if !open[c] {
-				ops = append(ops, fmt.Sprintf("open:%d:%d", c, r.Intn(2)))
+				role := "s"
+				if r.Intn(3) == 0 {
+					role = "c"
+					stat("open:client")
+				}
+				ops = append(ops, fmt.Sprintf("open:%d:%d:%s", c, r.Intn(2), role))
 				open[c] = true
 				cur[c] = false
+				if r.Intn(4) == 0 {
+					// the first compressed message of the new connection refers back beyond its own start
+					ops = append(ops, fmt.Sprintf("probe:%d:%d", c, r.Intn(2)))
+					open[c] = false
+					stat("probe")
+				}
 				continue
 			}
 			switch k := r.Intn(12); {
@@ -61,9 +74,14 @@ func genPools(r *Rng, tier string, stat func(string)) []string {
 				open[c] = false
 				stat("closemid")
 			default:
-				if r.Intn(3) == 0 {
+				if k3 := r.Intn(4); k3 == 0 {
 					ops = append(ops, fmt.Sprintf("plain:%d:%d", c, 100))
 					cur[c] = true
+				} else if k3 == 1 {
+					// the transport fails under the last frame of a compressed message: the connection goes away in the middle of Write
+					ops = append(ops, fmt.Sprintf("wfail:%d:%d", c, r.Pick([]int{600, 5000})))
+					open[c] = false
+					stat("wfail")
 				} else {
 					ops = append(ops, fmt.Sprintf("closenow:%d", c))
 					open[c] = false
@@ -83,7 +101,92 @@ func genPools(r *Rng, tier string, stat func(string)) []string {
 	out = append(out, "hist=open:0:0|open:1:0|wmsg:0:600|wmsg:1:600|wpart:0:5000|wmsg:1:700|closenow:0|wmsg:1:800|open:0:1|wmsg:0:900|wmsg:1:900")
 	out = append(out, "hist=open:0:1|open:1:1|open:2:0|wmsg:0:600|wmsg:1:600|wmsg:2:600|wmsg:0:40000|wpart:1:600|wmsg:2:700|closenow:1|wmsg:0:700|wmsg:2:700")
 	out = append(out, "hist=open:0:0|open:1:0|msg:0:600|readall:0|msg:1:40000|read:1:64|again:0|again:0|readall:1|again:1")
+	// a connection is closed after compressed traffic; the next one (same window size, fresh pools) opens with a back-reference
+	// that reaches before its own first byte: nothing may come out of it
+	for _, role := range []string{"s", "c"} {
+		for k := 0; k < 2; k++ {
+			out = append(out, fmt.Sprintf("hist=open:0:1:%s|msg:0:40000|readall:0|closenow:0|open:1:1:%s|probe:1:%d", role, role, k))
+			out = append(out, fmt.Sprintf("hist=open:0:1:%s|msg:0:600|readall:0|msg:0:5000|read:0:16|closenow:0|open:1:1:%s|probe:1:%d", role, role, k))
+			out = append(out, fmt.Sprintf("hist=open:0:0:%s|msg:0:600|readall:0|closenow:0|open:1:0:%s|probe:1:%d", role, role, k))
+		}
+		// a write that fails on its last frame, then two new connections stream at the same time: each has a compressor of its own
+		for tk := 0; tk < 2; tk++ {
+			out = append(out, fmt.Sprintf("hist=open:0:%d:%s|wfail:0:600|open:1:%d:%s|open:2:%d:%s|wpart:1:600|wpart:2:600|wmsg:0:600", tk, role, tk, role, tk, role))
+			out = append(out, fmt.Sprintf("hist=open:0:%d:%s|wmsg:0:600|wfail:0:5000|open:1:%d:%s|wmsg:1:600|open:2:%d:%s|wpart:2:600|wpart:1:600|closenow:1|closenow:2|open:0:%d:%s|wmsg:0:700", tk, role, tk, role, tk, role, tk, role))
+		}
+		// client connections recycle their bufio reader and writer: B, opened after A went away, talks to its own peer
+		out = append(out, fmt.Sprintf("hist=open:0:1:c|wmsg:0:600|msg:0:600|readall:0|closenow:0|open:1:1:%s|wmsg:1:700|msg:1:600|readall:1|open:2:0:c|wmsg:2:100|wmsg:1:100|msg:2:40|readall:2", role))
+	}
 	return out
+}
+
+// bitPacker writes a raw deflate stream by hand (the encoder of compress/flate never refers before the start of its input).
+type bitPacker struct {
+	out  []byte
+	acc  uint64
+	nacc uint
+}
+
+func (b *bitPacker) bits(v uint64, n uint) { // LSB first (header fields, extra bits)
+	b.acc |= v << b.nacc
+	b.nacc += n
+	for b.nacc >= 8 {
+		b.out = append(b.out, byte(b.acc))
+		b.acc >>= 8
+		b.nacc -= 8
+	}
+}
+
+func (b *bitPacker) huff(code uint64, n uint) { // Huffman codes go out most significant bit first
+	for i := int(n) - 1; i >= 0; i-- {
+		b.bits((code>>uint(i))&1, 1)
+	}
+}
+
+func (b *bitPacker) flush() []byte {
+	if b.nacc > 0 {
+		b.bits(0, 8-b.nacc)
+	}
+	return b.out
+}
+
+// probeMessage is the payload of a compressed message (RFC 7692: the trailing 00 00 ff ff removed) made of one
+// fixed-Huffman block holding a single match that reaches before the first byte of the stream:
+// kind 0: length 3, distance 1;  kind 1: length 258, distance 32768.
+func probeMessage(kind int) []byte {
+	var b bitPacker
+	b.bits(0, 1) // BFINAL
+	b.bits(1, 2) // BTYPE fixed
+	if kind == 0 {
+		b.huff(1, 7) // 257: length 3
+		b.huff(0, 5) // distance code 0: 1
+	} else {
+		b.huff(0xc0+5, 8) // 285: length 258
+		b.huff(29, 5)     // distance code 29: 24577 + 13 extra bits
+		b.bits(8191, 13)
+	}
+	b.huff(0, 7) // end of block
+	b.bits(0, 3) // empty stored block, not final
+	return b.flush()
+}
+
+func init() {
+	// the hand-made streams are what they claim to be: with a dictionary in place they inflate to copies of its bytes
+	for kind, want := range []int{3, 258} {
+		d := make([]byte, 32768)
+		for i := range d {
+			d[i] = 'Q'
+		}
+		z := append(probeMessage(kind), 0, 0, 0xff, 0xff, 1, 0, 0, 0xff, 0xff)
+		got, err := io.ReadAll(flate.NewReaderDict(bytes.NewReader(z), d))
+		if err != nil || len(got) != want || got[0] != 'Q' {
+			panic(fmt.Sprintf("probeMessage(%d): %d bytes, %v", kind, len(got), err))
+		}
+		_, err = io.ReadAll(flate.NewReader(bytes.NewReader(z)))
+		if err == nil {
+			panic("probeMessage: accepted without history")
+		}
+	}
 }
 
 func poolTag(c, m int) []byte { return []byte(fmt.Sprintf("c%dm%03d_", c, m)) }
@@ -180,13 +283,38 @@ func runPools(kv map[string]string) string {
 		case "open":
 			tk := f[2] == "1"
 			cfg := EndpointCfg{Role: "server", Flate: true, Cnct: !tk, Snct: true, Mode: "takeover"}
+			if len(f) > 3 && f[3] == "c" {
+				// the library reads what the server sends: server_no_context_takeover decides its window
+				cfg = EndpointCfg{Role: "client", Flate: true, Cnct: true, Snct: !tk, Mode: "takeover"}
+			}
+			if old := conns[ci]; old != nil && !old.closed {
+				old.c.CloseNow()
+			}
 			c, raw, err := newLibConn(cfg)
 			if err != nil {
 				return "dialerr=" + errClass(err)
 			}
 			c.SetReadLimit(-1)
-			conns[ci] = &poolConn{c: c, raw: raw, snd: &sender{r: NewRng(uint64(ci + 1)), masked: true, flate: true, takeover: tk}}
+			conns[ci] = &poolConn{c: c, raw: raw, snd: &sender{r: NewRng(uint64(ci + 1)), masked: cfg.Role == "server", flate: true, takeover: tk}}
 			go raw.ReadAllUntilClosed()
+		case "probe":
+			if pc == nil || pc.closed || pc.nmsg > 0 {
+				continue
+			}
+			kind, _ := strconv.Atoi(f[2])
+			pc.snd.out = nil
+			pc.snd.frame(rawFrame{Fin: true, Rsv1: true, Opcode: 2, Payload: probeMessage(kind), DeclLen: -1})
+			pc.raw.Send(pc.snd.out)
+			_, rd, err := pc.c.Reader(ctx)
+			var b []byte
+			if err == nil {
+				b, err = io.ReadAll(rd)
+			}
+			// whatever came out was never sent on this connection (nothing was)
+			obs = append(obs, fmt.Sprintf("%d:probe:%d:%s", ci, len(b), status(err)))
+			pc.c.CloseNow()
+			pc.closed = true
+			pc.rd = nil
 		case "msg", "plain", "msgnf", "plainnf":
 			if pc == nil || pc.closed {
 				continue
@@ -249,6 +377,11 @@ func runPools(kv map[string]string) string {
 				b = buf[:n]
 			}
 			obs = append(obs, fmt.Sprintf("%d:%d:%v:%s", ci, len(b), ownBytes(ci, b), status(err)))
+			if status(err) == "err" && !pc.closed {
+				// nothing was wrong on this connection: complete, well-formed messages, no close, no cancellation
+				obs = append(obs, fmt.Sprintf("%d:unexpected-error:%s", ci, f[0]))
+				pc.rd = nil
+			}
 		case "wmsg", "wpart":
 			if pc == nil || pc.closed || pc.wopen {
 				continue
@@ -256,8 +389,22 @@ func runPools(kv map[string]string) string {
 			n, _ := strconv.Atoi(f[2])
 			wctx, wcancel := context.WithTimeout(ctx, 5*time.Second)
 			if f[0] == "wmsg" {
+				before := map[int]int{}
+				for k, o := range conns {
+					before[k] = o.raw.Written()
+				}
 				err := pc.c.Write(wctx, websocket.MessageBinary, poolPayload(ci, 900+pc.nmsg, n))
 				obs = append(obs, fmt.Sprintf("%d:w:%s", ci, status(err)))
+				// a finished message has been flushed to the transport of this connection and to no other
+				for k, o := range conns {
+					grew := o.raw.Written() > before[k]
+					if (k == ci && err == nil && !grew) || (k != ci && grew) {
+						obs = append(obs, fmt.Sprintf("%d:write-misrouted:%d", ci, k))
+					}
+				}
+				if err != nil {
+					obs = append(obs, fmt.Sprintf("%d:unexpected-error:wmsg", ci))
+				}
 			} else {
 				// a streamed message that is never finished: its flate.Writer stays with the connection until it is closed
 				w, err := pc.c.Writer(wctx, websocket.MessageBinary)
@@ -269,6 +416,19 @@ func runPools(kv map[string]string) string {
 			}
 			wcancel()
 			pc.nmsg++
+		case "wfail":
+			if pc == nil || pc.closed || pc.wopen {
+				continue
+			}
+			n, _ := strconv.Atoi(f[2])
+			pc.raw.RefuseWrites()
+			wctx, wcancel := context.WithTimeout(ctx, 5*time.Second)
+			err := pc.c.Write(wctx, websocket.MessageBinary, poolPayload(ci, 900+pc.nmsg, n))
+			wcancel()
+			obs = append(obs, fmt.Sprintf("%d:wf:%s", ci, status(err)))
+			pc.c.CloseNow()
+			pc.closed = true
+			pc.rd = nil
 		case "closemid":
 			if pc == nil || pc.closed {
 				continue
